@@ -116,6 +116,7 @@ type ReplayFile struct {
 	Choices  map[string]int    `json:"choices"`
 	Known    []string          `json:"known"`
 	Thorough bool              `json:"thorough"`
+	Repeat   int               `json:"repeat,omitempty"`
 }
 
 type NativeResult struct {
@@ -421,6 +422,9 @@ func cmdCheck(prop string, tier string) int {
 			}
 			perID[v.AssertID]++
 			rf := ReplayFile{Property: prop, Harness: h.Name, Pkg: h.PkgRel, AssertID: v.AssertID, Why: v.Why, Values: modelStrings(v.Model), Choices: v.Choices, Thorough: thorough}
+			if strings.Contains(h.Name, "MapOrder") {
+				rf.Repeat = 300 // Go randomises map iteration natively: repeat until the order that fails shows up
+			}
 			for k := range knownOn {
 				rf.Known = append(rf.Known, k)
 			}
